@@ -232,12 +232,12 @@ def obligations(ctx, cfg):
             RequestTerminates(ctx, 'acknowledge_messages', mk_ids), RequestTerminates(ctx, 'modify_ack_deadlines', mk_mods),
             RequestTerminates(ctx, 'get_info', none)]
     if cfg['tier'] == 'thorough':
-        for meth, mkargs in (('delete', none), ('pull_messages', mk_u16)):
-            t = RequestTerminates(ctx, meth, mkargs)
-            t.all_select_orders = True
-            t.id += '-all-select-orders'
-            t.bounds = dict(t.bounds, **{'select! start index': 'all'})
-            term.append(t)
+        # every select! start index, topic gone (the case in which the deletion signal is the only way out)
+        t = RequestTerminates(ctx, 'delete', none, topic_alive=False)
+        t.all_select_orders = True
+        t.id += '-topic-gone-all-select-orders'
+        t.bounds = dict(t.bounds, **{'select! start index': 'all'})
+        term.append(t)
     from props.races import TopicRequestTerminates
     from models_sync import ArcTok, Opaque
     from props.common import sym_name
